@@ -87,6 +87,21 @@ pub fn generate(rng: &mut Rng, tier: &str, shard: usize, nshards: usize, out: &m
             }
         }
     }
+    // the text handed to the float parser is written into a fixed buffer: the longest texts arise from
+    // coefficients that keep 43..44 digits after trimming (the digit estimate of a 44-digit number with a
+    // small leading digit is 43, so nothing is trimmed) together with a ten-digit exponent
+    for len in [25usize, 26, 43, 44, 45, 62, 63, 64, 82] {
+        for lead in [1u8, 2, 4, 5, 9] {
+            for sc in [999_999_999i64, 1_000_000_000, 1_234_567_890, 2_147_483_646, 2_147_483_647, -999_999_999, -2_147_483_647] {
+                let mut digits = String::new();
+                digits.push((b'0' + lead) as char);
+                for _ in 1..len { digits.push((b'0' + rng.below(10) as u8) as char); }
+                let i: BigInt = digits.parse().unwrap();
+                let i = if rng.chance(1, 2) { -i } else { i };
+                emit(format!("C14\ttof64\t{}", show(&dec(i, sc))), &mut n);
+            }
+        }
+    }
     let total = if thorough { 3_000_000 } else { 150_000 };
     for _ in 0..total {
         match rng.below(3) {
